@@ -78,7 +78,7 @@ func verifArbValue(t FieldType, short bool) interface{} {
 	return ipfix.Interpret(&b, t)
 }
 
-// message shape: DataSets = [[F1, F2], [F3]]; F1 of every abstract type (split) in exact
+// message shape: DataSets = [[F1, F2], [F3], [F4]] (first / middle / last positions of the comma logic); F1 of every abstract type (split) in exact
 // and short encoding, F2 an unsigned32 with an enterprise number, F3 of a second type.
 func VerifV9JSON() {
 	t1 := FieldType(verifSplit(21))
@@ -87,8 +87,9 @@ func VerifV9JSON() {
 	f1 := DecodedField{ID: verifNondetU16(), Value: verifArbValue(t1, short)}
 	f2 := DecodedField{ID: verifNondetU16(), Value: verifArbValue(Uint32, false)}
 	f3 := DecodedField{ID: verifNondetU16(), Value: verifArbValue(t3, false)}
+	f4 := DecodedField{ID: verifNondetU16(), Value: verifArbValue(Uint64, false)}
 	addr := verifAddr()
-	m := &Message{AgentID: addr.String(), DataSets: [][]DecodedField{{f1, f2}, {f3}}}
+	m := &Message{AgentID: addr.String(), DataSets: [][]DecodedField{{f1, f2}, {f3}, {f4}}}
 	m.Header = PacketHeader{Version: 9, Count: verifNondetU16(), SysUpTime: verifNondetU32(), UNIXSecs: verifNondetU32(), SeqNum: verifNondetU32(), SrcID: verifNondetU32()}
 	out, err := m.JSONMarshal(new(bytes.Buffer))
 	if err != nil {
@@ -101,10 +102,10 @@ func VerifV9JSON() {
 	verifAssert(verifAll(verifJSONNum(h, "Header.Version", 9, true), verifJSONNum(h, "Header.Count", uint64(m.Header.Count), true),
 		verifJSONNum(h, "Header.SysUpTime", uint64(m.Header.SysUpTime), true), verifJSONNum(h, "Header.UNIXSecs", uint64(m.Header.UNIXSecs), true),
 		verifJSONNum(h, "Header.SeqNum", uint64(m.Header.SeqNum), true), verifJSONNum(h, "Header.SrcID", uint64(m.Header.SrcID), true)), "header fields")
-	verifAssert(verifAll(verifJSONLen(h, "DataSets") == 2, verifJSONLen(h, "DataSets[0]") == 2, verifJSONLen(h, "DataSets[1]") == 1), "one entry per record, one object per field")
-	fs := [3]DecodedField{f1, f2, f3}
-	ps := [3]string{"DataSets[0][0]", "DataSets[0][1]", "DataSets[1][0]"}
-	for i := 0; i < 3; i++ {
+	verifAssert(verifAll(verifJSONLen(h, "DataSets") == 3, verifJSONLen(h, "DataSets[0]") == 2, verifJSONLen(h, "DataSets[1]") == 1, verifJSONLen(h, "DataSets[2]") == 1), "one entry per record, one object per field")
+	fs := [4]DecodedField{f1, f2, f3, f4}
+	ps := [4]string{"DataSets[0][0]", "DataSets[0][1]", "DataSets[1][0]", "DataSets[2][0]"}
+	for i := 0; i < 4; i++ {
 		verifAssert(verifJSONNum(h, ps[i]+".I", uint64(fs[i].ID), true), "element id")
 		verifExpectValue(h, ps[i]+".V", fs[i].Value)
 	}
